@@ -1,5 +1,6 @@
 import OjgVerif.Common.Driver
 import OjgVerif.Reflect.Model
+import OjgVerif.Reflect.Registry
 /-! Driver ops of the `reflect` family (line protocol, see `Common/Driver.lean`).
 
 Types and values travel as space separated tokens in prefix form (strings as hex, `-` = empty):
@@ -209,8 +210,144 @@ def handleEnc (which dev flags bytesAs ck ty val : String) : String :=
     else "bad-op"
   | _, _, _, _ => "bad-op"
 
+/-! ### C16: trees in, values out -/
+
+def spanClose : List Char → List Char → Option (List Char × List Char)
+  | [], _ => none
+  | c :: r, acc => if c = ')' then some (acc.reverse, r) else spanClose r (c :: acc)
+
+def readIntChars (cs : List Char) : Option Int := (String.ofList cs).toInt?
+
+def pElems (p : List Char → Option (JV × List Char)) : Nat → List Char → List JV → Option (List JV × List Char)
+  | 0, _, _ => none
+  | n + 1, cs, acc =>
+    match p cs with
+    | none => none
+    | some (v, ',' :: r) => pElems p n r (v :: acc)
+    | some (v, ']' :: r) => some ((v :: acc).reverse, r)
+    | some _ => none
+
+def pMembers (p : List Char → Option (JV × List Char)) : Nat → List Char → List (Bytes × JV) → Option (List (Bytes × JV) × List Char)
+  | 0, _, _ => none
+  | n + 1, cs, acc =>
+    match cs with
+    | 'K' :: '(' :: r =>
+      match spanClose r [] with
+      | none => none
+      | some (hx, r2) =>
+        match ofHex (String.ofList hx), p r2 with
+        | some k, some (v, ',' :: r3) => pMembers p n r3 ((k, v) :: acc)
+        | some k, some (v, '}' :: r3) => some (((k, v) :: acc).reverse, r3)
+        | _, _ => none
+    | _ => none
+
+def pJV : Nat → List Char → Option (JV × List Char)
+  | 0, _ => none
+  | n + 1, cs =>
+    match cs with
+    | 'n' :: r => some (.null, r)
+    | 't' :: r => some (.bool true, r)
+    | 'f' :: r => some (.bool false, r)
+    | '[' :: ']' :: r => some (.arr [], r)
+    | '[' :: r => (pElems (pJV n) cs.length r []).map (fun x => (.arr x.1, x.2))
+    | '{' :: '}' :: r => some (.obj [], r)
+    | '{' :: r => (pMembers (pJV n) cs.length r []).map (fun x => (.obj x.1, x.2))
+    | c :: '(' :: r =>
+      match spanClose r [] with
+      | none => none
+      | some (body, r2) =>
+        if c = 'I' then (readIntChars body).map (fun i => (.int i, r2))
+        else if c = 'F' then (ofHex (String.ofList body)).map (fun t => (.flt t, r2))
+        else if c = 'B' then (ofHex (String.ofList body)).map (fun t => (.big t, r2))
+        else if c = 'S' then (ofHex (String.ofList body)).map (fun t => (.str t, r2))
+        else none
+    | _ => none
+
+def readJV (s : String) : Option JV :=
+  match pJV (s.length + 1) s.toList with
+  | some (v, []) => some v
+  | _ => none
+
+mutual
+  def typeToks : GoType → String
+    | .bool => "b "
+    | .int k => "i" ++ toString k ++ " "
+    | .float true => "f32 "
+    | .float false => "f64 "
+    | .str => "s "
+    | .bytes => "y "
+    | .iface => "I "
+    | .slice e => "L " ++ typeToks e
+    | .array n e => "A " ++ toString n ++ " " ++ typeToks e
+    | .map e => "M " ++ typeToks e
+    | .ptr e => "P " ++ typeToks e
+    | .struct name pkg fs => "S " ++ toHexF name ++ " " ++ toHexF pkg ++ " " ++ toString fs.length ++ " " ++ fieldToks fs
+  def fieldToks : List (FieldHdr × GoType) → String
+    | [] => ""
+    | (h, t) :: r =>
+      toHexF h.name ++ " " ++ (if h.tag.isEmpty then "~" else toHexF h.tag) ++ " " ++ (if h.embedded then "e " else "n ") ++
+        typeToks t ++ fieldToks r
+end
+
+mutual
+  def valToks : GoVal → String
+    | .bool true => "t "
+    | .bool false => "f "
+    | .int i => "i " ++ toString i ++ " "
+    | .flt t => "d " ++ toHexF t ++ " "
+    | .str s => "s " ++ toHexF s ++ " "
+    | .nilBytes => "Y "
+    | .bytes b => "y " ++ toHexF b ++ " "
+    | .nilSlice => "L "
+    | .slice xs => "l " ++ toString xs.length ++ " " ++ valsToks xs
+    | .arr xs => "a " ++ toString xs.length ++ " " ++ valsToks xs
+    | .nilMap => "M "
+    | .map kvs => "m " ++ toString kvs.length ++ " " ++ kvsToks kvs
+    | .nilPtr => "P "
+    | .ptr v => "p " ++ valToks v
+    | .nilIface => "J "
+    | .iface t v => "j " ++ typeToks t ++ valToks v
+    | .struct vs => "r " ++ toString vs.length ++ " " ++ valsToks vs
+  def valsToks : List GoVal → String
+    | [] => ""
+    | x :: r => valToks x ++ valsToks r
+  def kvsToks : List (Bytes × GoVal) → String
+    | [] => ""
+    | (k, x) :: r => toHexF k ++ " " ++ valToks x ++ kvsToks r
+end
+
+def readEvent (s : String) : Option Event :=
+  match toks s with
+  | "R" :: r =>
+    match pType fuelT r with
+    | some (t, []) => some (.register t)
+    | _ => none
+  | "C" :: r =>
+    match pType fuelT r with
+    | some (t, ["|", tree]) => (readJV tree).map fun j => .recompose t j
+    | _ => none
+  | _ => none
+
+def readEvents (s : String) : Option (List Event) :=
+  if s = "-" then some [] else (s.splitOn " ; ").mapM readEvent
+
+def slotText : Slot → String
+  | .ok v => (valToks v).trimAsciiEnd.toString
+  | .panic => "error"
+  | .outside => "outside"
+
+def handleRecomp : List String → String
+  | [dev, ck, events, ty, tree] =>
+    match (if dev = "b" then some true else if dev = "-" then some false else none), ofHex ck, readEvents events,
+        readType ty, readJV tree with
+    | some bare, some key, some h, some t, some j =>
+      if !typeInFragment t then "outside" else slotText (recompose bare key (regAfter bare key h) t j)
+    | _, _, _, _, _ => "bad-op"
+  | _ => "bad-op"
+
 def handle : List String → String
   | ["enc", which, dev, flags, bytesAs, ck, ty, val] => handleEnc which dev flags bytesAs ck ty val
+  | "recomp" :: args => handleRecomp args
   | _ => "bad-op"
 
 end OjgVerif.Reflect
